@@ -14,6 +14,7 @@ import (
 	"net/netip"
 	"sort"
 	"strings"
+	"sync"
 	"time"
 
 	"github.com/osrg/gobgp/v4/api"
@@ -22,7 +23,66 @@ import (
 )
 
 func init() {
-	families["world"] = &familyImpl{op: worldOp, check: worldCheck}
+	families["world"] = &familyImpl{setup: worldSetup, op: worldOp, check: worldCheck}
+}
+
+// bestStream replays the best-path notification stream (what FIB, BMP and MRT consumers see).
+type bestStream struct {
+	mu     sync.Mutex
+	best   map[string]bestEnt // family|prefix -> announcement
+	events int
+}
+
+type bestEnt struct {
+	Src string
+	Tag uint32
+}
+
+func worldSetup(w *simWorld) error {
+	if w.sc.Global.Multipath {
+		return nil
+	}
+	wt, err := w.s.watch(WatchBestPath(true))
+	if err != nil {
+		return err
+	}
+	bs := &bestStream{best: map[string]bestEnt{}}
+	w.bestS = bs
+	done := make(chan struct{})
+	w.preShutdown = append(w.preShutdown, func() {
+		wt.Stop()
+		<-done
+	})
+	go func() {
+		defer close(done)
+		for ev := range wt.Event() {
+			m, ok := ev.(*watchEventBestPath)
+			if !ok {
+				continue
+			}
+			bs.mu.Lock()
+			bs.events++
+			for _, p := range m.PathList {
+				k := p.GetFamily().String() + "|" + p.GetNlri().String()
+				if p.IsWithdraw {
+					delete(bs.best, k)
+					continue
+				}
+				e := bestEnt{}
+				if s := p.GetSource(); s != nil && s.Address.IsValid() && !p.IsLocal() {
+					e.Src = s.Address.String()
+				}
+				for _, c := range p.GetCommunities() {
+					if c>>24 == 0x7e {
+						e.Tag = c
+					}
+				}
+				bs.best[k] = e
+			}
+			bs.mu.Unlock()
+		}
+	}()
+	return nil
 }
 
 // ---------------------------------------------------------------- generator
@@ -234,6 +294,14 @@ func genWorld(seed uint64, tier string, mode string) *Script {
 			if g.p(12) {
 				// already reflected by another route reflector
 				a.ClusterList = pick(g, [][]string{{"192.168.8.1"}, {"192.168.8.1", "192.168.8.2"}, {"192.168.8.10", "192.168.8.9"}})
+				if g.p(45) {
+					// longer lists: a slice decoded from the wire has spare capacity at 3, 5, 6, 7 entries
+					n := g.rng(3, 7)
+					a.ClusterList = nil
+					for k := 0; k < n; k++ {
+						a.ClusterList = append(a.ClusterList, fmt.Sprintf("192.168.8.%d", 20+k))
+					}
+				}
 				if g.p(12) {
 					a.ClusterList = append(a.ClusterList, "10.0.0.1") // the local cluster-id: must not be used
 				}
@@ -820,6 +888,42 @@ func worldCheck(w *simWorld, phase int) {
 			}
 		}
 		w.mu.Unlock()
+		if bs := w.bestS; bs != nil {
+			// ---- C02: the best-path notification stream, replayed in order, gives the best-path table
+			bs.mu.Lock()
+			seen := map[string]bool{}
+			for _, k := range sortedKeys(glob) {
+				for _, rp := range glob[k] {
+					if !rp.Best {
+						continue
+					}
+					key := gobgpFamily(fam).String() + "|" + rp.Prefix
+					seen[key] = true
+					e, ok := bs.best[key]
+					switch {
+					case !ok:
+						w.violate("C02", "best-stream-missing", key, fmt.Sprintf("the best path (from %q, announcement %x) was never notified to best-path watchers", rp.Src, rp.Tag))
+					case e.Tag != rp.Tag || e.Src != rp.Src:
+						w.violate("C02", "best-stream-stale", key, fmt.Sprintf("the notification stream ends with the route from %q (announcement %x), the Loc-RIB's best path is from %q (announcement %x)", e.Src, e.Tag, rp.Src, rp.Tag))
+					}
+				}
+			}
+			pre := gobgpFamily(fam).String() + "|"
+			var ks []string
+			for k := range bs.best {
+				ks = append(ks, k)
+			}
+			sort.Strings(ks)
+			for _, k := range ks {
+				if strings.HasPrefix(k, pre) && !seen[k] {
+					w.violate("C02", "best-stream-leftover", k, fmt.Sprintf("the notification stream still holds the route from %q (announcement %x) for a destination without a best path", bs.best[k].Src, bs.best[k].Tag))
+				}
+			}
+			if bs.events > 0 {
+				w.probe("best_stream_compared")
+			}
+			bs.mu.Unlock()
+		}
 		got := map[string]uint32{}
 		for _, k := range sortedKeys(glob) {
 			for i, rp := range glob[k] {
